@@ -12,8 +12,9 @@
     index beyond the window's own extent but inside the buffer) from accesses that leave the memory
     of the buffer.
 
-    The harness uses both only to TAG failures found by the reference interpreter [Core.Sem.run]; the
-    agreement of [locate] with [run] on the error kind is checked on every failure.
+    The harness uses both only to TAG failures found by the reference interpreter [Core.Sem.run] and to
+    detect aliasing; [locate] agrees with [run] (ProofsLocate.locate_agrees), and the harness re-checks the
+    agreement of the error kind on every failure.
 
     Executable Gallina only (model file). *)
 From Coq Require Import ZArith List Bool.
